@@ -219,6 +219,21 @@ def check_tables(ctx):
     ctx.floor('binary sequence operators', len(b.get('sequence', [])), 3)
     ctx.floor('reflected integer operators', len(r.get('integer', [])), 12)
     ctx.floor('unary operators', len(u.get('integer', [])) + len(u.get('sequence', [])), 4)
+    REQUIRED = {
+        ('binary', 'integer'): ['add', 'sub', 'mul', 'truediv', 'floordiv', 'mod', 'pow', 'le', 'lt', 'ge', 'gt', 'eq', 'ne', 'and_', 'or_', 'xor', 'rshift', 'lshift'],
+        ('binary', 'sequence'): ['eq', 'ne', 'getitem'],
+        ('reflected', 'integer'): ['add', 'sub', 'mul', 'truediv', 'floordiv', 'mod', 'pow', 'and_', 'or_', 'xor', 'rshift', 'lshift'],
+        ('unary', 'integer'): ['neg', 'inv', 'truth'],
+        ('unary', 'sequence'): ['len'],
+    }
+    have = {'binary': b, 'reflected': r, 'unary': u}
+    for (kind, cat), ops in REQUIRED.items():
+        missing = [o for o in ops if o not in have[kind].get(cat, [])]
+        tline = tabs[{'binary': 'BinaryOperationsByCategory', 'reflected': 'BinaryReverseOperationsByCategory', 'unary': 'UnaryOperationsByCategory'}[kind]][1]
+        if missing:
+            ctx.violation(rule, where, '%s %s operators: missing %s' % (kind, cat, missing), 'the expression language of the statement includes these operators%s: the Python expression raises TypeError instead of being deferred' % (' in both operand orders' if kind == 'reflected' else ''), tline, clause='a')
+        else:
+            ctx.holds(rule, where, '%s %s operators cover %s' % (kind, cat, ops), 'the supported operator set', tline, clause='a')
     for cat in r:
         extra = [o for o in r[cat] if o not in b.get(cat, [])]
         if extra:
@@ -366,11 +381,11 @@ def check_compile_expr(ctx, nts):
                 if which == 'list':
                     ok = it == '%s[1]' % R and len(inner) == 1 and canon(inner[0].call.args[0]) == item and emits[0][0][0] == 'len(%s[1])' % R
                     coll = emits[0][0][1]
-                    ok = ok and isinstance(coll, ast.Lambda) and coll.args.vararg is not None and canon(coll.body) == '_v0' and not coll.args.args
+                    ok = ok and isinstance(coll, ast.Lambda) and coll.args.vararg is not None and canon(coll.body) == coll.args.vararg.arg and not coll.args.args
                 else:
                     ok = it == 'zip(*%s[2].items())[1]' % R and len(inner) == 1 and canon(inner[0].call.args[0]) == item and emits[0][0][0] == 'len(%s[2])' % R
                     coll = emits[0][0][1]
-                    ok = ok and isinstance(coll, ast.Lambda) and coll.args.vararg is not None and canon(coll.body) == 'dict(zip(zip(*%s[2].items())[0], _v0))' % R
+                    ok = ok and isinstance(coll, ast.Lambda) and coll.args.vararg is not None and canon(coll.body) == 'dict(zip(zip(*%s[2].items())[0], %s))' % (R, coll.args.vararg.arg)
                 # order: compile(left) < loop < collector < op
                 order = [p.effects.index(top[0][2]), p.effects.index(lp), p.effects.index(emits[0][1]), p.effects.index(emits[1][1])]
                 ok = ok and order == sorted(order) and canon(emits[1][0][1]) == '%s[3]' % R
